@@ -189,6 +189,32 @@ M("p5-helper-arms-swapped", "C02", "fire P5", "src/circuit.rs",
         muxed
     }
 """, "helper selects f when the condition holds")
+M("p1-memo-merge-and-then", "C02", "quiet", "src/circuit.rs",
+  """            match (cache_t.get(k), cache_f.get(k)) {
+                // A condition that was only checked in one of the branches is not part of the
+                // merged record whenever the other branch is taken, so it must be checked again:
+                (None, None) | (None, Some(_)) | (Some(_), None) => {}
+                (Some(t), Some(f)) => {
+                    cache.insert(*k, self.mux_uncached_panic(condition, t, f));
+                }
+            }""",
+  """            let in_both = cache_t.get(k).and_then(|t| cache_f.get(k).map(|f| (t, f)));
+            if let Some((t, f)) = in_both {
+                cache.insert(*k, self.mux_uncached_panic(condition, t, f));
+            }""", "same intersection with Option::and_then")
+M("p1-memo-merge-and-then-one-sided", "C02", "fire P1", "src/circuit.rs",
+  """            match (cache_t.get(k), cache_f.get(k)) {
+                // A condition that was only checked in one of the branches is not part of the
+                // merged record whenever the other branch is taken, so it must be checked again:
+                (None, None) | (None, Some(_)) | (Some(_), None) => {}
+                (Some(t), Some(f)) => {
+                    cache.insert(*k, self.mux_uncached_panic(condition, t, f));
+                }
+            }""",
+  """            let in_both = cache_t.get(k).and_then(|t| Some((t, cache_f.get(k).unwrap_or(t))));
+            if let Some((t, f)) = in_both {
+                cache.insert(*k, self.mux_uncached_panic(condition, t, f));
+            }""", "a condition checked in the then-branch only stays memoised")
 M("p1-selector-after-update", "C02", "fire P1", "src/circuit.rs",
   """        let already_panicked = self.panic_gates.result.has_panicked;
         self.panic_gates.result.has_panicked =
@@ -441,6 +467,52 @@ M("g1-gate-verdict-in-a-local-ignored-for-not", "C16", "fire G1", "src/circuit.r
             if !ok {
                 return Err(CircuitError::InvalidGate(i));
             }""", "the verdict travels through a local; the Not operand's comparison never rejects")
+M2("g2-checking-helper", "C16", "quiet", [
+  ("src/register_circuit.rs", """                Op::Not(Not(x)) => {
+                    if x > max_reg {
+                        return Err(CircuitError::InvalidInst(i));
+                    }
+                    if !register_set[x] {
+                        return Err(CircuitError::InvalidRegAccess(i, x));
+                    }
+                }""", """                Op::Not(Not(x)) => {
+                    if x > max_reg {
+                        return Err(CircuitError::InvalidInst(i));
+                    }
+                    check_reg_is_set(&register_set, i, x)?;
+                }"""),
+  ("src/register_circuit.rs", """// For some reason auto-ref auto-deref method dispatching works weirdly with""", """fn check_reg_is_set(register_set: &[bool], i: usize, reg: Reg) -> Result<(), CircuitError> {
+    if register_set[reg] {
+        Ok(())
+    } else {
+        Err(CircuitError::InvalidRegAccess(i, reg))
+    }
+}
+
+// For some reason auto-ref auto-deref method dispatching works weirdly with""")], "written-check of the Not operand moved into a helper, propagated with ?")
+M2("g2-checking-helper-result-dropped", "C16", "fire G2", [
+  ("src/register_circuit.rs", """                Op::Not(Not(x)) => {
+                    if x > max_reg {
+                        return Err(CircuitError::InvalidInst(i));
+                    }
+                    if !register_set[x] {
+                        return Err(CircuitError::InvalidRegAccess(i, x));
+                    }
+                }""", """                Op::Not(Not(x)) => {
+                    if x > max_reg {
+                        return Err(CircuitError::InvalidInst(i));
+                    }
+                    let _ = check_reg_is_set(&register_set, i, x);
+                }"""),
+  ("src/register_circuit.rs", """// For some reason auto-ref auto-deref method dispatching works weirdly with""", """fn check_reg_is_set(register_set: &[bool], i: usize, reg: Reg) -> Result<(), CircuitError> {
+    if register_set[reg] {
+        Ok(())
+    } else {
+        Err(CircuitError::InvalidRegAccess(i, reg))
+    }
+}
+
+// For some reason auto-ref auto-deref method dispatching works weirdly with""")], "the helper's verdict is thrown away")
 M("g1-not-rejecting", "C16", "fire G1", "src/register_circuit.rs",
   """                Op::Not(Not(x)) => {
                     if x > max_reg {
@@ -497,6 +569,43 @@ M("g1-reorder-checks", "C16", "quiet", "src/register_circuit.rs",
                     }""", "behaviour-preserving for acceptance: checks reordered")
 
 # ---------------------------------------------------------------- C12
+M("k5-min-as-fold", "C12", "quiet", "src/compile.rs",
+  """                ConstExprEnum::Min(args) => {
+                    let mut result = <$const_ty>::MAX;
+                    for arg in args {
+                        result = min(result, $fn_ident(arg, consts_unsigned));
+                    }
+                    result
+                }""",
+  """                ConstExprEnum::Min(args) => args
+                    .iter()
+                    .map(|arg| $fn_ident(arg, consts_unsigned))
+                    .fold(<$const_ty>::MAX, min),""", "same fold with Iterator::fold")
+M("k5-min-as-fold-wrong-identity", "C12", "fire K5", "src/compile.rs",
+  """                ConstExprEnum::Min(args) => {
+                    let mut result = <$const_ty>::MAX;
+                    for arg in args {
+                        result = min(result, $fn_ident(arg, consts_unsigned));
+                    }
+                    result
+                }""",
+  """                ConstExprEnum::Min(args) => args
+                    .iter()
+                    .map(|arg| $fn_ident(arg, consts_unsigned))
+                    .fold(<$const_ty>::MIN, min),""", "min() folded from MIN is always MIN")
+M("k5-min-as-fold-skips-first", "C12", "fire K5", "src/compile.rs",
+  """                ConstExprEnum::Min(args) => {
+                    let mut result = <$const_ty>::MAX;
+                    for arg in args {
+                        result = min(result, $fn_ident(arg, consts_unsigned));
+                    }
+                    result
+                }""",
+  """                ConstExprEnum::Min(args) => args
+                    .iter()
+                    .skip(1)
+                    .map(|arg| $fn_ident(arg, consts_unsigned))
+                    .fold(<$const_ty>::MAX, min),""", "first argument of min() ignored")
 REVERT("revert-invalid-literal-first", "C12", "fire K1", "21d964e", "pre-fix tree: mistyped usize constant panics before InvalidLiteralType is reported")
 REVERT("revert-max-identity", "C12", "fire K5", "96af733", "pre-fix tree: signed max() starts at 0")
 REVERT("revert-constdefs-order", "C12", "fire K4", "b61eb1a", "pre-fix tree: const defs bound in HashMap order")
@@ -891,6 +1000,21 @@ M("a1-shift-no-raise-for-signed", "C03", "fire A1", "src/compile.rs",
                 bits_unshifted""", "signed shifts by >= width no longer raise")
 
 # ---------------------------------------------------------------- C08
+M("m3-bounds-crossed", "C08", "fire M3", "src/compile.rs",
+  """                let min = unsigned_as_wires(*min, bits);
+                let max = unsigned_as_wires(*max, bits);
+                let signed = is_signed(ty);
+                let (lt_min, _) =
+                    circuit.push_comparator_circuit(bits, match_expr, signed, &min, signed);
+                let (_, gt_max) =
+                    circuit.push_comparator_circuit(bits, match_expr, signed, &max, signed);""",
+  """                let min = unsigned_as_wires(*min, bits);
+                let max = unsigned_as_wires(*max, bits);
+                let signed = is_signed(ty);
+                let (lt_min, _) =
+                    circuit.push_comparator_circuit(bits, match_expr, signed, &max, signed);
+                let (_, gt_max) =
+                    circuit.push_comparator_circuit(bits, match_expr, signed, &min, signed);""", "lower comparison against max, upper against min")
 REVERT("revert-pattern-both-bounds-c08", "C08", "fire M9", "18041d9", "pre-fix tree: inverted range patterns with a bound outside the type match values")
 REVERT("revert-signed-split", "C08", "fire M2", "4c5c3ff", "pre-fix tree: signed catch-all query not split, negative bounds dropped")
 M("m1-selector-is-match-only", "C08", "fire M1", "src/compile.rs",
@@ -1068,6 +1192,114 @@ M("o6-negated-unconditional", "C04", "fire O6", "src/circuit.rs",
             }""", "every XOR gate is recorded as a negation of its second operand")
 
 # ---------------------------------------------------------------- C10
+M2("r7-guard-predicate-helper", "C10", "quiet", [
+  ("src/register_circuit.rs", """        if let Some(b) = b {
+            if let Some(&last_use) = self.last_used.get(&b) {
+                if last_use == gate_id {
+                    // This might be None if a == b, as we already removed a previously
+                    if let Some(reg) = self.wire_map.remove(&b) {
+                        if reuse_reg.is_some() {
+                            self.free_regs.push(reg);
+                        } else {
+                            reuse_reg = Some(reg);
+                        }
+                    }
+                }
+            }
+        }""", """        if let Some(b) = b {
+            if self.is_last_use(b, gate_id) {
+                if let Some(reg) = self.wire_map.remove(&b) {
+                    if reuse_reg.is_some() {
+                        self.free_regs.push(reg);
+                    } else {
+                        reuse_reg = Some(reg);
+                    }
+                }
+            }
+        }"""),
+  ("src/register_circuit.rs", """    /// Finds a free output register or allocates a new one and updates the wire_map.
+    /// If the current gate is the last use of one its inputs, we immediately reuse
+    /// the register.
+    fn find_out_reg(""", """    fn is_last_use(&self, wire: GateIndex, gate_id: GateIndex) -> bool {
+        self.last_used.get(&wire) == Some(&gate_id)
+    }
+
+    /// Finds a free output register or allocates a new one and updates the wire_map.
+    /// If the current gate is the last use of one its inputs, we immediately reuse
+    /// the register.
+    fn find_out_reg(""")], "guard moved into a bool helper")
+M2("r7-guard-predicate-helper-negated", "C10", "fire R7", [
+  ("src/register_circuit.rs", """        if let Some(b) = b {
+            if let Some(&last_use) = self.last_used.get(&b) {
+                if last_use == gate_id {
+                    // This might be None if a == b, as we already removed a previously
+                    if let Some(reg) = self.wire_map.remove(&b) {
+                        if reuse_reg.is_some() {
+                            self.free_regs.push(reg);
+                        } else {
+                            reuse_reg = Some(reg);
+                        }
+                    }
+                }
+            }
+        }""", """        if let Some(b) = b {
+            if !self.is_last_use(b, gate_id) {
+                if let Some(reg) = self.wire_map.remove(&b) {
+                    if reuse_reg.is_some() {
+                        self.free_regs.push(reg);
+                    } else {
+                        reuse_reg = Some(reg);
+                    }
+                }
+            }
+        }"""),
+  ("src/register_circuit.rs", """    /// Finds a free output register or allocates a new one and updates the wire_map.
+    /// If the current gate is the last use of one its inputs, we immediately reuse
+    /// the register.
+    fn find_out_reg(""", """    fn is_last_use(&self, wire: GateIndex, gate_id: GateIndex) -> bool {
+        self.last_used.get(&wire) == Some(&gate_id)
+    }
+
+    /// Finds a free output register or allocates a new one and updates the wire_map.
+    /// If the current gate is the last use of one its inputs, we immediately reuse
+    /// the register.
+    fn find_out_reg(""")], "released when it is not the last use")
+M2("r7-guard-predicate-helper-args-crossed", "C10", "fire R7", [
+  ("src/register_circuit.rs", """        if let Some(b) = b {
+            if let Some(&last_use) = self.last_used.get(&b) {
+                if last_use == gate_id {
+                    // This might be None if a == b, as we already removed a previously
+                    if let Some(reg) = self.wire_map.remove(&b) {
+                        if reuse_reg.is_some() {
+                            self.free_regs.push(reg);
+                        } else {
+                            reuse_reg = Some(reg);
+                        }
+                    }
+                }
+            }
+        }""", """        if let Some(b) = b {
+            if self.is_last_use(gate_id, b) {
+                if let Some(reg) = self.wire_map.remove(&b) {
+                    if reuse_reg.is_some() {
+                        self.free_regs.push(reg);
+                    } else {
+                        reuse_reg = Some(reg);
+                    }
+                }
+            }
+        }"""),
+  ("src/register_circuit.rs", """    /// Finds a free output register or allocates a new one and updates the wire_map.
+    /// If the current gate is the last use of one its inputs, we immediately reuse
+    /// the register.
+    fn find_out_reg(""", """    fn is_last_use(&self, wire: GateIndex, gate_id: GateIndex) -> bool {
+        self.last_used.get(&wire) == Some(&gate_id)
+    }
+
+    /// Finds a free output register or allocates a new one and updates the wire_map.
+    /// If the current gate is the last use of one its inputs, we immediately reuse
+    /// the register.
+    fn find_out_reg(""")], "helper asked about the wrong wire")
 M("r7-guard-on-options", "C10", "quiet", "src/register_circuit.rs",
   """        if let Some(b) = b {
             if let Some(&last_use) = self.last_used.get(&b) {
@@ -1164,6 +1396,28 @@ M("r4-fresh-reg-no-bump", "C10", "fire R4", "src/register_circuit.rs",
         }""", "fresh registers are handed out twice")
 
 # ---------------------------------------------------------------- C13
+M("j5-direction-by-selection", "C13", "quiet", "src/circuit.rs",
+  """            let (mut min, mut max) = self.push_sorter(bits, x, y);
+            if !ascending {
+                mem::swap(&mut min, &mut max);
+            }
+            bitonic[i] = min;
+            bitonic[i + m] = max;""",
+  """            let (min, max) = self.push_sorter(bits, x, y);
+            let (first, second) = if ascending { (min, max) } else { (max, min) };
+            bitonic[i] = first;
+            bitonic[i + m] = second;""", "same placement, selected by `ascending` instead of a swap (mem import stays used elsewhere or warns only)")
+M("j5-direction-by-selection-inverted", "C13", "fire J5", "src/circuit.rs",
+  """            let (mut min, mut max) = self.push_sorter(bits, x, y);
+            if !ascending {
+                mem::swap(&mut min, &mut max);
+            }
+            bitonic[i] = min;
+            bitonic[i + m] = max;""",
+  """            let (min, max) = self.push_sorter(bits, x, y);
+            let (first, second) = if ascending { (max, min) } else { (min, max) };
+            bitonic[i] = first;
+            bitonic[i + m] = second;""", "ascending merges place the larger row first")
 M("j7-fold", "C13", "quiet", "src/circuit.rs",
   """        let mut is_eq = 1;
         for (&x, &y) in x.iter().zip(y) {
